@@ -22,6 +22,7 @@ from fractions import Fraction
 from .. import protocols
 from ..apitable import shape_of
 from ..harness import arr, scalar
+from .. import tq
 from ..interp import State
 from ..terms import T, vconst
 
@@ -67,7 +68,7 @@ def check(ctx):
                         sets = [i for i, e in enumerate(ev) if e["kind"] == "setattr" and e["attr"] == "scale_" and e["value"].term.op != "const"]
                         ok = bool(guards) and bool(sets) and max(guards) < min(sets)
                         conds = [repr(c) for e in ev if e["kind"] == "raise" for c, pol in e["pc"][-1:]]
-                        okc = any("atol" in c and "rtol" in c and ("lt" in c or "<" in c) for c in conds)
+                        okc = any(tq.cmp_parts(c_) is not None and tq.has_sym(c_, "atol") and tq.has_sym(c_, "rtol") or (tq.has_sym(c_, "atol") and tq.has_sym(c_, "rtol") and tq.has_op(c_, "lt", "gt", "le", "ge")) for e in ev if e["kind"] == "raise" for c_, pol in e["pc"][-1:])
                         ctx.ob("R-ZEROVAR", f"variance compared with atol + |mean| rtol and rejected before the square root [{cfg}]", ok and okc, f"raise at {guards}, scale_ set at {sets}, guard {conds[:1]}", site, cfg)
                     # transform / inverse on the fitted state
                     Xt = arr("Xt", "V", "M")
@@ -98,7 +99,7 @@ def check(ctx):
         ws_ = [x[1] for t in reds for x in t.args[1:] if isinstance(x, tuple) and x[0] == "weights"]
         okn = all(w.op == "sdiv" and w.args[1].op == "sum" for w in ws_)
         ctx.ob("R-WEIGHTS", f"the weights feeding {a} are normalised to one", bool(ws_) and okn, f"{[repr(w)[:80] for w in ws_[:2]]}", site)
-        ctx.ob("R-WEIGHTS", f"no ddof / n-1 correction in {a}", "ddof" not in repr(v.term), repr(v.term)[:200], site, nontrivial=False)
+        ctx.ob("R-WEIGHTS", f"no ddof / n-1 correction in {a}", not any(isinstance(a_, tuple) and a_ and a_[0] == "ddof" for x in tq.walk_all(v.term) for a_ in x.args), repr(v.term)[:200], site, nontrivial=False)
 
 
 def _assume_noraise(term, node, interp):
